@@ -70,6 +70,9 @@ void PDU::copy_inner_pdu(const PDU& pdu) {
     if (pdu.inner_pdu()) {
         inner_pdu(pdu.inner_pdu()->clone());
     }
+    else {
+        inner_pdu(0);
+    }
 }
 
 void PDU::prepare_for_serialize() {
